@@ -509,3 +509,59 @@ example (fn : Fn ℚ) (x : ℚ) (hΦ : fn.ndtr (fn.ndtri ((x - 2) / 3)) = (x - 2
   simpa [InvAt, Tr.apply, Tr.inv, transformChain] using hΦ
 
 end AF.C17
+
+namespace AF.C17
+open AF.Msg
+
+variable {K : Type} [Field K] [LinearOrder K] [IsStrictOrderedRing K]
+
+/-! ## first-order variance of a transformed message -/
+
+/-- the point at which each Jacobian of `TransformedMessage.variance` is taken is the running mean:
+after the whole stack it is the mean the message reports -/
+theorem varianceChain_mean (fn : Fn K) : ∀ (trs : List (Tr K)) (m v : K),
+    (varianceChain fn trs (m, v)).1 = inverseChain fn trs m
+  | [], m, v => rfl
+  | t :: rest, m, v => by
+      simp only [varianceChain, inverseChain, List.foldl_cons]
+      exact varianceChain_mean fn rest _ _
+
+/-- a plain message reports the variance of its parameters -/
+theorem variance_plain (fn : Fn K) (b : Base K) : (M.plain b).variance fn = b.variance fn := rfl
+
+/-- one more transform *at the end of the stack* rescales the variance by the squared inverse Jacobian
+of that transform at the new mean (the recursion of the implementation, stated from the outside) -/
+theorem varianceChain_append (fn : Fn K) (trs : List (Tr K)) (t : Tr K) (m v : K) :
+    varianceChain fn (trs ++ [t]) (m, v) =
+      (t.inv fn (varianceChain fn trs (m, v)).1,
+       (varianceChain fn trs (m, v)).2 * (1 / t.grad fn (t.inv fn (varianceChain fn trs (m, v)).1)) *
+         (1 / t.grad fn (t.inv fn (varianceChain fn trs (m, v)).1))) := by
+  induction trs generalizing m v with
+  | nil => rfl
+  | cons a rest ih => simp only [List.cons_append, varianceChain]; exact ih _ _
+
+/-- a stack of shifts/scalings only (the affine part of every prior's message) multiplies the variance by
+the product of the squared scales, wherever the mean is: the scale² law -/
+theorem variance_affine (fn : Fn K) : ∀ (ss : List (K × K)) (m v : K), (∀ sc ∈ ss, sc.2 ≠ 0) →
+    (varianceChain fn (ss.map fun sc => Tr.shift sc.1 sc.2) (m, v)).2 =
+      v * (ss.map fun sc => sc.2 * sc.2).prod
+  | [], m, v, _ => by simp [varianceChain]
+  | sc :: rest, m, v, h => by
+      have hc : sc.2 ≠ 0 := h sc (List.mem_cons_self ..)
+      simp only [List.map_cons, varianceChain, Tr.grad, List.prod_cons]
+      rw [variance_affine fn rest _ _ (fun x hx => h x (List.mem_cons_of_mem _ hx))]
+      field_simp
+
+/-- a stand-in for the special functions over `ℚ` (only `exp`, `log` are used below: x², x) -/
+def fnQ : Fn ℚ :=
+  { sqrt := id, log := id, exp := fun x => x * x, log10 := id, exp10 := id, ndtr := id, ndtri := id,
+    erfinv := id, normPdf := id, negInf := -1, posInf := 1, halfLog2Pi := 1, isFinite := fun _ => true,
+    le := fun a b => decide (a ≤ b), max := fun a b => if a ≤ b then b else a }
+
+/-- the order of the stack matters: with a non-linear transform and a scaling, reversing the stack
+changes the result (non-vacuity of "in the order of the stack"; `ℚ` with the stand-ins above) -/
+example : (varianceChain fnQ [Tr.exp, Tr.shift 0 3] (2, 1)).2 ≠
+    (varianceChain fnQ [Tr.shift 0 3, Tr.exp] (2, 1)).2 := by
+  decide +kernel
+
+end AF.C17
